@@ -118,10 +118,10 @@ def blame(exc):
 
 
 def run_cases(ctx, mod):
-    """Generic loop: mod.gen(ctx) yields cases, mod.judge(ctx, case) judges them.
+    """Generic loop: mod.cases(ctx) yields cases, mod.judge(ctx, case) judges them.
     A library exception escaping judge is a violation ('raises'); a harness
     exception makes the shard inconclusive."""
-    for case in mod.gen(ctx):
+    for case in mod.cases(ctx):
         if ctx.full():
             break
         safe_judge(ctx, mod, case)
